@@ -315,6 +315,7 @@ def run(ctx, info):
     for _ in range(n):
         root = rng.choice(['act', 'doc', 'statement', 'judgment'])
         cases.append((fn_doc(rng) if rng.random() < 0.8 else gen.doc_text(rng, root, corners=0.3), root, ''))
+    cases += [(t, ['act', 'doc', 'statement', 'judgment'][i % 4], '') for i, (_, t, r) in enumerate(gen.fn_nest_docs())]   # every seed: nested blocks citing enclosing / own / sibling blocks
     e2e.tie_convert(ctx, drv, cases, failures)
     nb = 0
     for t, root, _ in cases:
